@@ -1,6 +1,7 @@
 import Proofs.Lemmas.ForkChoiceUnknown
 import Proofs.Lemmas.ForkChoiceSim
 import Zrnt.ForkChoice.Spec
+import Zrnt.ForkChoice.Old
 /-!
 # C11 — graph queries agree with the inserted tree
 
@@ -64,9 +65,8 @@ example : aGet chainEx.blockSlots 9 = none := by decide
 
 /-- every query of every history returns (no panic, no endless loop) while nothing is pruned: the harness machine
 is never `dead` and the array stays well formed -/
-theorem queries_total_unpruned (ops : List Op)
-    (hu : ∀ k, k ≤ ops.length → Unpruned (run .none (ops.take k)).1) : MInv (run .none ops).1 :=
-  inv_structure ops .none trivial hu
+theorem queries_total_quiet (ops : List Op) (hq : Quiet .none ops) : MInv (run .none ops).1 :=
+  inv_structure_quiet ops .none trivial hq
 
 /-- **The navigation queries refine the specification (admissible histories).** For every history inside the
 domain: every `GetSlot(root)` answer is the first (lowest) slot at which the root was inserted, or "unknown"; every
@@ -108,6 +108,7 @@ def witSearchSpins : List Op := [
   .search ⟨2, aa 1⟩ (some (rt 0x80)) none]
 
 /-- replayed on Go (`corpus/fc11.ops`): `blocked` (a real endless loop) -/
-theorem queries_after_prune_false : (run .none witSearchSpins).2.getLast? = some Ans.blocked := by decide +kernel
+theorem Old.queries_after_prune_false : (Zrnt.ForkChoice.Old.run .none witSearchSpins).2.getLast? = some Ans.blocked := by
+  decide +kernel
 
 end Zrnt.Proofs.C11
